@@ -7,6 +7,8 @@ The worker parent never calls anything in here that touches cr.cube objects.
 import copy
 import json
 
+import numpy as np
+
 from . import model
 from .digest import _ADDR, json_digest, observe
 
@@ -148,6 +150,7 @@ class World:
         self.pristine_digest = dict(self.arg_digest)
         self.handles = {}  # "c0.h1" -> (spec_id, root, private_args or None)
         self.step = 0
+        self.held = []  # arrays handed out by reads, kept the way a caller keeps them
 
     # -- argument access
     def fresh_family(self):
@@ -205,6 +208,8 @@ class World:
             v = attempt(lambda: resolve(root, path, get_arg))
             d, s, k, x = observe(v)
             ev.update(d=d, s=s, k=k, x=x, sid=sid)
+            if isinstance(v, (np.ndarray, list)) and len(self.held) < 400:
+                self.held.append((ev["i"], sid, path, v, d, s))
         elif kind == "PROBE":
             _k, sid, path = op
             spec = self.sc["specs"][sid]
@@ -239,6 +244,17 @@ class World:
         if chg:
             ev["chg"] = chg
         return ev
+
+
+def held_changes(world):
+    """A value that was handed to the caller must still be what it was (it is the object a
+    repeated read of a cached property returns): re-encode every array kept since."""
+    out = []
+    for step, sid, path, v, d, s in world.held:
+        d2, s2, _k, _x = observe(v)
+        if d2 != d:
+            out.append({"i": step, "sid": sid, "path": path, "then": [d, s, None], "now": [d2, s2, None]})
+    return out
 
 
 def reference(scenario, texts, sid, path):
